@@ -55,20 +55,20 @@ static void run(std::vector<std::function<void()> >& bodies, uint64_t seed, int 
 #include <sys/mman.h>
 #include <new>
 namespace arena {
-static const size_t NARENA = 16, ARENA_SZ = (size_t)256 << 20; static uint8_t* base = 0; static size_t used[NARENA];
+static const size_t NARENA = 16, ARENA_SZ = (size_t)256 << 20; static uint8_t* base = 0; static size_t used[NARENA]; static int64_t live_blocks[NARENA];
 static void init() { if (!base) base = (uint8_t*)mmap(0, NARENA * ARENA_SZ, PROT_READ | PROT_WRITE, MAP_PRIVATE | MAP_ANONYMOUS | MAP_NORESERVE, -1, 0); }
 static const int LIFETIME = 15;   // objects created by one-time initialisation during warm-up live here for the whole process
-static void reset() { init(); for (size_t i = 0; i < NARENA; ++i) { if ((int)i == LIFETIME) continue; if (used[i]) madvise(base + i * ARENA_SZ, used[i], MADV_DONTNEED); used[i] = 0; } }
+static void reset() { init(); for (size_t i = 0; i < NARENA; ++i) { if ((int)i == LIFETIME) continue; live_blocks[i] = 0; if (used[i]) madvise(base + i * ARENA_SZ, used[i], MADV_DONTNEED); used[i] = 0; } }
 static inline bool contains(const void* p) { return base && (const uint8_t*)p >= base && (const uint8_t*)p < base + NARENA * ARENA_SZ; }
 static inline int owner(const void* p) { return (int)(((const uint8_t*)p - base) / ARENA_SZ); }
 }
 namespace mon { static __thread int tl_logical = -1; }
 static void* arena_alloc(size_t n, bool nothrow) {
     int t = mon::tl_logical;
-    if (t >= 0 && t < (int)arena::NARENA && arena::base) { size_t sz = (n + 15) & ~(size_t)15; if (sz == 0) sz = 16; if (arena::used[t] + sz <= arena::ARENA_SZ) { void* p = arena::base + (size_t)t * arena::ARENA_SZ + arena::used[t]; arena::used[t] += sz; return p; } }
+    if (t >= 0 && t < (int)arena::NARENA && arena::base) { size_t sz = (n + 15) & ~(size_t)15; if (sz == 0) sz = 16; if (arena::used[t] + sz <= arena::ARENA_SZ) { void* p = arena::base + (size_t)t * arena::ARENA_SZ + arena::used[t]; arena::used[t] += sz; ++arena::live_blocks[t]; return p; } }
     void* p = malloc(n ? n : 1); if (!p && !nothrow) throw std::bad_alloc(); return p;
 }
-static void arena_free(void* p) { if (!p || arena::contains(p)) return; free(p); }
+static void arena_free(void* p) { if (!p) return; if (arena::contains(p)) { --arena::live_blocks[arena::owner(p)]; return; } free(p); }
 void* operator new(size_t n) { return arena_alloc(n, false); } void* operator new[](size_t n) { return arena_alloc(n, false); }
 void* operator new(size_t n, const std::nothrow_t&) noexcept { return arena_alloc(n, true); } void* operator new[](size_t n, const std::nothrow_t&) noexcept { return arena_alloc(n, true); }
 void operator delete(void* p) noexcept { arena_free(p); } void operator delete[](void* p) noexcept { arena_free(p); } void operator delete(void* p, size_t) noexcept { arena_free(p); } void operator delete[](void* p, size_t) noexcept { arena_free(p); }
@@ -190,6 +190,7 @@ static uint64_t run_op(const KV& k, ThreadState& ts, uint64_t h) {
             for (auto& f : wpa2_fix(set)) { RadioTap r(f.second.data(), (uint32_t)f.second.size()); bool ok = d.decrypt(r); h = Hu(h, ok); if (ok) { PDU::serialization_type s = r.serialize(); h = H(h, s.data(), s.size()); } }
             h = Hu(h, d.get_keys().size());
         }
+        else if (op == "pmk") { Crypto::WPA2::SupplicantData sd(k.str("psk"), k.str("ssid")); h = H(h, sd.pmk().data(), sd.pmk().size()); h = Hs(h, sd.ssid()); }
         else if (op == "dns") {
             DNS d; d.id((uint16_t)k.num("id")); int n = (int)k.num("n"); for (int i = 0; i < n; ++i) { d.add_query(DNS::query(fmt("host%d.example%d.com", i, (int)k.num("id") % 7), DNS::A, DNS::INTERNET)); d.add_answer(DNS::resource(fmt("host%d.example.com", i), fmt("10.0.%d.%d", i, n), DNS::A, DNS::INTERNET, 300 + i)); }
             PDU::serialization_type s = d.serialize(); h = H(h, s.data(), s.size()); DNS e(s.data(), (uint32_t)s.size()); for (auto& q : e.queries()) h = Hs(h, q.dname()); for (auto& a : e.answers()) h = Hs(h, a.data());
@@ -238,7 +239,8 @@ struct ThrEngine : Engine {
                 switch (kind) {
                     case 0: case 1: { int dlt = dlts[cfg.below(7)]; gen::Frame f = gen::frame_for(wl, dlt); k.set("op", "parse").set("dlt", dlt).set("f", f.bytes); break; }
                     case 2: k.set("op", "frag").set("pl", wl.bytes((size_t)cfg.range(20, 400))).set("mtu", (int64_t)cfg.range(8, 120)).set("id", (int64_t)cfg.range(1, 65535)).set("ord", (int64_t)cfg.below(3)); break;
-                    case 3: k.set("op", "wpa2").set("set", cfg.chance(0.4) ? "ccmp_packets" : cfg.chance(0.5) ? "tkip_packets" : "ccmp_qos_packets"); break;
+                    case 3: if (cfg.chance(0.5)) { k.set("op", "pmk").set("psk", fmt("pass%llu", (unsigned long long)(cfg.next() % 100000))).set("ssid", fmt("net%llu", (unsigned long long)(cfg.next() % 1000))); break; }
+                            k.set("op", "wpa2").set("set", cfg.chance(0.4) ? "ccmp_packets" : cfg.chance(0.5) ? "tkip_packets" : "ccmp_qos_packets"); break;
                     case 4: k.set("op", "dns").set("id", (int64_t)cfg.range(0, 65535)).set("n", (int64_t)cfg.range(1, 6)); break;
                     case 5: k.set("op", "addr").setu("v", cfg.next() & 0xffffffffu); break;
                     case 6: k.set("op", "build").setu("v", cfg.next() & 0xffffffffu); break;
@@ -270,6 +272,10 @@ struct ThrEngine : Engine {
         st.inc("chk.thread_digest", (uint64_t)K); st.inc("fault.context_switch", sched::switches); st.inc("probe.scheduler_steps", sched::steps);
         st.inc("probe.static_reads", mon::n_static_reads); st.inc("probe.static_writes_unguarded", mon::n_static_writes); st.inc("probe.static_writes_in_guarded_init", mon::n_guarded_writes); st.inc("probe.cross_thread_heap_accesses", mon::n_cross_heap); st.inc("probe.accesses_to_memory_allocated_outside_threads", mon::n_other_heap);
         tr.add(fmt("threads=%d steps=%llu switches=%llu schedhash=%llu", K, (unsigned long long)sched::steps, (unsigned long long)sched::switches, (unsigned long long)sched::sched_hash));
+        // memory allocated by a thread's calls and still alive after all of its objects were destroyed is retained by the library
+        // (a global registry or cache that grows with use): hidden shared state, whatever the access pattern of this particular run
+        { int64_t kept = 0; int who = -1; for (int t = 0; t < K && t < arena::LIFETIME; ++t) if (arena::live_blocks[t] > 0) { kept += arena::live_blocks[t]; who = t; } st.inc("chk.thread_allocations_released");
+          if (kept > 0) return Verdict::bad("thr:thread-allocations-retained-by-library", fmt("%lld heap blocks allocated by the calls of thread %d are still referenced after all of the thread's objects were destroyed", (long long)kept, who)); }
         // (a) shared-access rule
         std::set<std::string> shared, read_syms;
         for (size_t i = 0; i < mon::TAB; ++i) { const mon::Ent& e = mon::tab[i]; if (!e.a) continue; st.inc("chk.static_location");
